@@ -1,5 +1,6 @@
 """C09 — ephemeris interpolation is exact at nodes and accurate between them."""
 import ast
+import json
 import math
 import os
 import re
@@ -127,9 +128,303 @@ def default_order_source():
     raise py2lean.Untranslatable("Ephem.DEFAULT_ORDER not found")
 
 
+def body_of(fn):
+    """statements of a function without its docstring"""
+    return [s for s in fn.body if not (isinstance(s, ast.Expr) and isinstance(s.value, ast.Constant))]
+
+
+class NpTr:
+    """Dedicated translator for the numpy idiom of `Interp._lagrange` (tile / reshape / diag / repeat / identity / boolean mask /
+    broadcast - and / / prod / @): straight-line assignments ending in a `return`, every sub-expression typed
+    (S scalar, I integer, V 1-D array, M 2-D array, B 2-D boolean mask) and bound by one `let … ←` of an operation of
+    lean/templates/NpArr.tpl (A-normal form in the Option monad, `none` = numpy refuses the shapes).
+    Refuses (Untranslatable) every expression, keyword or type combination that is not listed here."""
+
+    def __init__(self, env):
+        self.env = dict(env)        # python name -> (lean atom, type)
+        self.lines = []
+        self.k = 0
+
+    def bind(self, text, typ, name=None):
+        if name is None:
+            self.k += 1
+            name = f"t{self.k}"
+        self.lines.append(f"let {name} ← {text}")
+        return name, typ
+
+    def int_expr(self, e):
+        if isinstance(e, ast.Attribute) and ast.unparse(e) == "self.order":
+            return "order"
+        if isinstance(e, ast.Constant) and isinstance(e.value, int) and not isinstance(e.value, bool):
+            return f"({e.value} : Int)"
+        if isinstance(e, ast.BinOp) and isinstance(e.op, (ast.Add, ast.Sub, ast.Mult)):
+            op = {ast.Add: "+", ast.Sub: "-", ast.Mult: "*"}[type(e.op)]
+            return f"({self.int_expr(e.left)} {op} {self.int_expr(e.right)})"
+        raise py2lean.Untranslatable("not an integer expression of the Lagrange formula: " + ast.unparse(e))
+
+    def kw(self, call, allowed):
+        got = {k.arg: ast.unparse(k.value) for k in call.keywords}
+        if got != allowed:
+            raise py2lean.Untranslatable(f"keywords of {ast.unparse(call)}: {got}, known shape has {allowed}")
+
+    def expr(self, e):
+        if isinstance(e, ast.Name):
+            if e.id not in self.env:
+                raise py2lean.Untranslatable("unknown name in the Lagrange formula: " + e.id)
+            return self.env[e.id]
+        if isinstance(e, ast.Call):
+            f = e.func
+            d = ast.unparse(f)
+            if d == "np.tile" and len(e.args) == 2:
+                self.kw(e, {})
+                a, t = self.expr(e.args[0])
+                if t == "V":
+                    return self.bind(f"npTile {a} {self.int_expr(e.args[1])}", "V")
+            elif d == "np.diag" and len(e.args) == 1:
+                self.kw(e, {})
+                a, t = self.expr(e.args[0])
+                if t == "M":
+                    return self.bind(f"npDiag {a}", "V")
+            elif d == "np.repeat" and len(e.args) == 2:
+                self.kw(e, {"axis": "0"})
+                a, t = self.expr(e.args[0])
+                if t == "V":
+                    return self.bind(f"npRepeat0 {a} {self.int_expr(e.args[1])}", "V")
+            elif d == "np.identity" and len(e.args) == 1:
+                self.kw(e, {"dtype": "bool"})
+                return self.bind(f"npIdentityBool {self.int_expr(e.args[0])}", "B")
+            elif isinstance(f, ast.Attribute) and f.attr == "reshape" and len(e.args) == 2:
+                self.kw(e, {})
+                a, t = self.expr(f.value)
+                if t == "V":
+                    return self.bind(f"npReshape2 {a} {self.int_expr(e.args[0])} {self.int_expr(e.args[1])}", "M")
+            elif isinstance(f, ast.Attribute) and f.attr == "prod" and len(e.args) == 0:
+                got = {k.arg: ast.unparse(k.value) for k in e.keywords}
+                a, t = self.expr(f.value)
+                if t == "M" and got in ({"axis": "1"}, {"axis": "0"}):
+                    return self.bind(f"npProdAxis{got['axis']} {a}", "V")
+            raise py2lean.Untranslatable("call not in the known shape of the Lagrange formula: " + ast.unparse(e))
+        if isinstance(e, ast.UnaryOp) and isinstance(e.op, ast.Invert):
+            a, t = self.expr(e.operand)
+            if t == "B":
+                return self.bind(f"npNotB {a}", "B")
+        if isinstance(e, ast.Subscript):
+            a, t = self.expr(e.value)
+            m, tm = self.expr(e.slice)
+            if (t, tm) == ("M", "B"):
+                return self.bind(f"npMask2 {a} {m}", "V")
+        if isinstance(e, ast.BinOp):
+            a, ta = self.expr(e.left)
+            b, tb = self.expr(e.right)
+            table = {(ast.Sub, "S", "V"): "npSubSV", (ast.Sub, "V", "S"): "npSubVS", (ast.Sub, "V", "V"): "npSubVV",
+                     (ast.Div, "V", "V"): "npDivVV", (ast.Mult, "V", "V"): "npMulVV", (ast.MatMult, "V", "M"): "npVecMat"}
+            op = table.get((type(e.op), ta, tb))
+            if op is not None:
+                return self.bind(f"{op} {a} {b}", "V")
+        raise py2lean.Untranslatable("expression not in the known shape of the Lagrange formula: " + ast.unparse(e))
+
+    def run(self, stmts):
+        for s in stmts[:-1]:
+            if not (isinstance(s, ast.Assign) and len(s.targets) == 1 and isinstance(s.targets[0], ast.Name)):
+                raise py2lean.Untranslatable("statement not in the known shape of the Lagrange formula: " + ast.unparse(s))
+            a, t = self.expr(s.value)
+            name = py2lean.lname(s.targets[0].id)
+            self.lines.append(f"let {name} := {a}")
+            self.env[s.targets[0].id] = (name, t)
+        last = stmts[-1]
+        if not (isinstance(last, ast.Return) and last.value is not None):
+            raise py2lean.Untranslatable("the Lagrange formula does not end with a return")
+        a, t = self.expr(last.value)
+        if t != "V":
+            raise py2lean.Untranslatable("the Lagrange formula does not return a 1-D array")
+        return "\n".join(self.lines + [f"pure {a}"])
+
+
+def formula_source():
+    """`Interp._lagrange` after the slicing: the guard `len(ys) != self.order` and the numpy formula, translated;
+    `Interp._linear`: slice bounds and formula; `Interp.__call__`: the range test and the dispatch (pinned)."""
+    tree = ast.parse(open(INTERP_PY).read())
+    fn = py2lean.find_function(tree, "Interp._lagrange")
+    stmts = body_of(fn)
+    i = next((k for k, s in enumerate(stmts) if ast.unparse(s) == "xs = self.xs[start:stop]"), None)
+    if i is None or ast.unparse(stmts[i + 1]) != "ys = self.ys[start:stop]":
+        raise py2lean.Untranslatable("_lagrange: the window is no longer taken as xs = self.xs[start:stop]; ys = self.ys[start:stop]")
+    g = stmts[i + 2]
+    if not (isinstance(g, ast.If) and not g.orelse and len(g.body) == 1 and isinstance(g.body[0], ast.Raise)
+            and ast.unparse(g.body[0].exc.func) == "ValueError"):
+        raise py2lean.Untranslatable("_lagrange: no `if <test>: raise ValueError` after the slicing: " + ast.unparse(g)[:80])
+    test = py2lean.Tr(consts={"self.order": "order"}).expr(_Len().visit(g.test))
+    test = re.sub(r"\bR\b", "Int", test)
+    out = ("/-- the test of `if len(ys) != self.order: raise ValueError` in Interp._lagrange (translated from the source) -/\n"
+           f"def lagrangeRefuses (nys order : Int) : Bool := decide {test}\n\n")
+    tr = NpTr({"xs": ("xs", "V"), "ys": ("ys", "M"), "x": ("x", "S")})
+    body = tr.run(stmts[i + 3:])
+    out += ("/-- the Lagrange formula of Interp._lagrange on the selected window (translated from the source, statement by statement;\n"
+            "every `let … ←` is one numpy operation of Model/NpArr) -/\n"
+            "def lagrangeFormula (order : Int) (xs : List R) (ys : List (List R)) (x : R) : Option (List R) := do\n"
+            + py2lean.indent(body) + "\n\n")
+    # _linear
+    fl = body_of(py2lean.find_function(tree, "Interp._linear"))
+    txt = [ast.unparse(s) for s in fl]
+    if len(fl) != 4 or txt[0] != "prev_idx = self._prev_idx(x)" or not isinstance(fl[3], ast.Return):
+        raise py2lean.Untranslatable("_linear: unknown shape: " + " ; ".join(txt)[:200])
+    bounds = []
+    for s, (a, b), arr in ((fl[1], ("x0", "x1"), "self.xs"), (fl[2], ("y0", "y1"), "self.ys")):
+        ok = (isinstance(s, ast.Assign) and ast.unparse(s.targets[0]) == f"({a}, {b})" and isinstance(s.value, ast.Subscript)
+              and ast.unparse(s.value.value) == arr and isinstance(s.value.slice, ast.Slice) and s.value.slice.step is None
+              and s.value.slice.lower is not None and s.value.slice.upper is not None)
+        if not ok:
+            raise py2lean.Untranslatable("_linear: unknown shape of " + ast.unparse(s))
+        itr = py2lean.Tr()
+        bounds.append("(" + re.sub(r"\bR\b", "Int", itr.expr(s.value.slice.lower)) + ", " + re.sub(r"\bR\b", "Int", itr.expr(s.value.slice.upper)) + ")")
+    if bounds[0] != bounds[1]:
+        raise py2lean.Untranslatable("_linear: abscissae and ordinates are sliced differently")
+    out += ("/-- bounds of the two-point slices `self.xs[…:…]`, `self.ys[…:…]` of Interp._linear (translated) -/\n"
+            f"def linearSlice (prev_idx : Int) : Int × Int := {bounds[0]}\n\n")
+    out += ("/-- the value returned by Interp._linear, per component (translated) -/\n"
+            f"def linearFormula (x x0 x1 y0 y1 : R) : R :=\n  {py2lean.Tr().expr(fl[3].value)}\n\n")
+    # __call__
+    fc = body_of(py2lean.find_function(tree, "Interp.__call__"))
+    if len(fc) != 3 or not (isinstance(fc[0], ast.If) and not fc[0].orelse and len(fc[0].body) == 1 and isinstance(fc[0].body[0], ast.Raise)
+                            and ast.unparse(fc[0].body[0].exc.func) == "ValueError"):
+        raise py2lean.Untranslatable("__call__: does not start with `if <range test>: raise ValueError` followed by the dispatch: "
+                                     + " ; ".join(ast.unparse(s)[:60] for s in fc))
+    rng_test = py2lean.Tr(consts={"self.xs[0]": "x0", "self.xs[-1]": "xl"}).expr(fc[0].test)
+    dispatch = " ; ".join(" ".join(ast.unparse(s).split()) for s in fc[1:])
+    if dispatch != CALL_DISPATCH:
+        raise py2lean.Untranslatable("__call__: the dispatch on the method is no longer the one the model describes: " + dispatch[:200])
+    out += ("/-- the range test of Interp.__call__ (`x0 = self.xs[0]`, `xl = self.xs[-1]`), translated; a `true` raises ValueError -/\n"
+            f"def callRefuses (x0 xl x : R) : Bool := decide {rng_test}\n")
+    # hand-modelled parts of interp.py: the model is claimed for exactly these texts
+    for qn, want in PINNED.items():
+        got = " ; ".join(" ".join(ast.unparse(s).split()) for s in body_of(py2lean.find_function(tree, qn)))
+        if got != want:
+            raise py2lean.Untranslatable(f"{qn} is no longer the text the hand-written model (lean/templates/Interp.tpl) describes: {got[:300]}")
+    return out
+
+
+class _Len(ast.NodeTransformer):
+    """`len(ys)` -> nys"""
+
+    def visit_Call(self, n):
+        if isinstance(n.func, ast.Name) and n.func.id == "len" and ast.unparse(n.args[0]) == "ys":
+            return ast.copy_location(ast.Name("nys", ast.Load()), n)
+        return self.generic_visit(n)
+
+
+CALL_DISPATCH = ("if self.method == self.LINEAR: func = self._linear elif self.method == self.LAGRANGE: func = self._lagrange "
+                 "else: raise ValueError('Unknown interpolation method', self.method) ; return func(x)")
+
+# functions whose model is hand-written (loops, constructors): extraction refuses when their text changes
+PINNED = {
+    "Interp._prev_idx": "prev_idx = 0 ; xs = self.xs ; while True: l = len(xs) if l == 1: break k = l // 2 if x > xs[k]: prev_idx += k xs = xs[k:] else: xs = xs[:k] ; return prev_idx",
+    "Interp.__init__": ("method = method.lower() ; if method == self.LAGRANGE and order is None: raise TypeError('An order shall be defined for a Lagrange interpolation') ; "
+                        "self.order = order ; if not all((x0 < x1 for x0, x1 in zip(xs, xs[1:]))): raise ValueError('xs is not monotonically increasing') ; "
+                        "self.xs = np.asarray(xs) ; self.ys = np.asarray(ys) ; self.method = method"),
+    "DatedInterp.__init__": "self.dates = dates ; xs = np.asarray([x._mjd for x in dates]) ; super().__init__(xs, ys, method, order)",
+}
+
+
+def ephem_source():
+    """The glue of Ephem around the interpolator, read from the AST into string tables (Generated/EphemSrc.lean) that
+    theorems of Props/C09.lean pin with `decide`: what `interpolate` returns, that `propagate` is `interpolate`, which
+    instant DatedInterp evaluates at, what the frame/form setters do and in which order, what `iter` yields."""
+    tree = ast.parse(open(EPHEM_PY).read())
+    itree = ast.parse(open(INTERP_PY).read())
+
+    def flat(qn, t=tree, deco=None):
+        cls, name = qn.split(".")
+        c = py2lean.find_function(t, cls)
+        for s in c.body:
+            if isinstance(s, ast.FunctionDef) and s.name == name:
+                d = [ast.unparse(x) for x in s.decorator_list]
+                if (deco is None and not any(x.endswith(".setter") for x in d)) or (deco is not None and deco in d):
+                    return [" ".join(ast.unparse(x).split()) for x in body_of(s)]
+        raise py2lean.Untranslatable(f"{qn} ({deco}) not found")
+
+    facts = {
+        "interpolateBody": flat("Ephem.interpolate"),
+        "propagateBody": flat("Ephem.propagate"),
+        "interpProperty": flat("Ephem.interp", deco="property"),
+        "frameSetter": flat("Ephem.frame", deco="frame.setter"),
+        "formSetter": flat("Ephem.form", deco="form.setter"),
+        "refreshInterp": flat("Ephem._refresh_interp"),
+        "orderSetter": flat("Ephem.order", deco="order.setter"),
+        "methodSetter": flat("Ephem.method", deco="method.setter"),
+        "orderGetter": flat("Ephem.order", deco="property"),
+        "methodGetter": flat("Ephem.method", deco="property"),
+        "frameGetter": flat("Ephem.frame", deco="property"),
+        "formGetter": flat("Ephem.form", deco="property"),
+        "initBody": flat("Ephem.__init__"),
+        "getitemBody": flat("Ephem.__getitem__"),
+        "nextBody": flat("Ephem.__next__"),
+    }
+    # DatedInterp.__call__: the abscissa handed to Interp.__call__
+    call = py2lean.find_function(itree, "DatedInterp.__call__")
+    sup = [n for n in ast.walk(call) if isinstance(n, ast.Call) and ast.unparse(n.func) == "super().__call__"]
+    if len(sup) != 1 or len(sup[0].args) != 1:
+        raise py2lean.Untranslatable("DatedInterp.__call__: not exactly one super().__call__(…)")
+    facts["datedAbscissa"] = [ast.unparse(sup[0].args[0])]
+    # every `yield` of iter / _iter_backward: where the yielded object comes from
+    ys = []
+    for qn in ("Ephem.iter", "Ephem._iter_backward"):
+        fn = py2lean.find_function(tree, qn)
+
+        def walk(stmts, defs):
+            defs = dict(defs)
+            for s in stmts:
+                if isinstance(s, ast.Assign) and len(s.targets) == 1 and isinstance(s.targets[0], ast.Name):
+                    defs[s.targets[0].id] = ast.unparse(s.value)
+                if isinstance(s, ast.For):
+                    d2 = dict(defs)
+                    if isinstance(s.target, ast.Name):
+                        d2[s.target.id] = "in " + ast.unparse(s.iter)
+                    walk(s.body, d2)
+                    continue
+                if isinstance(s, ast.While):
+                    # assignments of the loop body are visible at every yield of the body
+                    d2 = dict(defs)
+                    for x in s.body:
+                        if isinstance(x, ast.Assign) and len(x.targets) == 1 and isinstance(x.targets[0], ast.Name):
+                            d2[x.targets[0].id] = ast.unparse(x.value)
+                    walk(s.body, d2)
+                    continue
+                if isinstance(s, ast.If):
+                    walk(s.body, defs)
+                    walk(s.orelse, defs)
+                    continue
+                if isinstance(s, ast.Expr) and isinstance(s.value, ast.Yield):
+                    v = s.value.value
+                    if isinstance(v, ast.Name):
+                        ys.append(f"{qn.split('.')[1]}: {v.id} = {defs.get(v.id, '?')}")
+                    else:
+                        ys.append(f"{qn.split('.')[1]}: {ast.unparse(v)}")
+                elif isinstance(s, ast.Expr) and isinstance(s.value, ast.YieldFrom):
+                    ys.append(f"{qn.split('.')[1]}: from {ast.unparse(s.value.value.func)}")
+                elif any(isinstance(n, (ast.Yield, ast.YieldFrom)) for n in ast.walk(s)):
+                    raise py2lean.Untranslatable(f"{qn}: a yield in a statement shape that is not known: {ast.unparse(s)[:80]}")
+        walk(body_of(fn), {})
+    facts["iterYields"] = ys
+
+    def lit(v):
+        return "[" + ", ".join(json.dumps(x, ensure_ascii=False) for x in v) + "]"
+    out = ("/- GENERATED by harness/props/C09.py from beyond/orbits/ephem.py and beyond/utils/interp.py — do not edit.\n"
+           "The statements (whitespace-normalised) of the small methods of Ephem around the interpolator; pinned by\n"
+           "`decide`d theorems in Props/C09.lean, so that a change of any of them is noticed by the build. -/\n"
+           "namespace BeyondVerif.EphemSrc\n\n")
+    for k, v in facts.items():
+        out += f"def {k} : List String := {lit(v)}\n\n"
+    out += "end BeyondVerif.EphemSrc\n"
+    return out
+
+
 def extract(ctx):
     body = window_source() + "\n" + default_order_source()
     ch = py2lean.instantiate(core.LEAN, "InterpWin", body, "beyond/utils/interp.py (Interp._lagrange window) and beyond/orbits/ephem.py (DEFAULT_ORDER)")
+    ch += py2lean.instantiate(core.LEAN, "InterpLag", formula_source(),
+                              "beyond/utils/interp.py (Interp._lagrange guard and formula, Interp._linear, Interp.__call__ range test)", imports=("Model.NpArr",))
+    if core.write_if_changed(os.path.join(core.LEAN, "BeyondVerif", "Generated", "EphemSrc.lean"), ephem_source()):
+        ch.append("Generated/EphemSrc.lean")
     ch += instantiate.main()
     return ch
 
